@@ -298,6 +298,7 @@ class PotentialElectrode(BaseElectrode):
 
         self.metadata = metadata
         current_electrodes.metadata = metadata
+        self._current_electrodes = current_electrodes
 
         if isinstance(current_electrodes.ab_cell_id, ReferencedData) and isinstance(
             self.ab_cell_id, ReferencedData
@@ -379,6 +380,7 @@ class CurrentElectrode(BaseElectrode):
 
         self.metadata = metadata
         potential_electrodes.metadata = metadata
+        self._potential_electrodes = potential_electrodes
 
         if isinstance(potential_electrodes.ab_cell_id, ReferencedData) and isinstance(
             self.ab_cell_id, ReferencedData
